@@ -292,7 +292,18 @@ def monitor_line(case, o):
     if o.startswith("STDEXC") or o.startswith("UNKEXC"):
         return [(site + ":foreign-exception", "importer failed with %s instead of shark::Exception" % o)]
     if not o.startswith("OK "): return [(site + ":no-output", "no result line: %r" % o[:80])]
-    return [(site + ":" + k, m) for k, m in wellformed(t, parse_ok(o))]
+    bad = [(site + ":" + k, m) for k, m in wellformed(t, parse_ok(o))]
+    if kind == "SVM" and len(t) > 7 and not bad:
+        # "element count equal to the number of records": a record of a LibSVM file is a line with at least one non-blank character
+        # (counted on the input bytes, independently of the model), whether or not the last one is followed by a line end
+        try: text = bytes.fromhex(t[7]).decode("latin1")
+        except ValueError: text = None
+        import re as _re
+        if text is not None and not _re.search(r"\r(?!\n)|[^\x20-\x7e\t\r\n]", text):      # plain text with LF / CRLF line ends only
+            want = sum(1 for l in text.split("\n") if l.strip(" \t\r\n"))
+            got = int(parse_ok(o)["n"])
+            if got != want: bad.append((site + ":record-count", "the file holds %d records (non-blank lines), the imported data set has %d elements" % (want, got)))
+    return bad
 
 def wellformed(t, d):
     kind = t[0]; bad = []
